@@ -19,6 +19,10 @@ pub enum NameSel {
     Empty,
     Len65536,
     Len65537,
+    /// multi-byte characters, exactly 65536 bytes (valid)
+    Wide65536,
+    /// 65538 bytes in 32769 (2-byte) or 21846 (3-byte) characters: too long in bytes, not in characters
+    Wide65538(u8),
 }
 
 #[derive(Clone, Copy, Debug, Serialize, Deserialize, PartialEq, Eq, Hash)]
@@ -41,6 +45,9 @@ pub enum Call {
     Append(IdSel, Sz, Src),
     End(IdSel),
     Add(NameSel, Sz, Src),
+    /// append as many bytes as it takes for the block stream to stand `d` bytes before the next
+    /// edge of the chunk (0) / block (1) grid: the next block header then straddles that edge
+    AppendAlign(IdSel, u8, i8),
     Flush,
     Finalize,
 }
@@ -128,9 +135,16 @@ pub fn cases(ctx: &Ctx) -> Vec<Case> {
                 0..=17 => Call::Start(NameSel::Fresh),
                 18..=21 => Call::Start(NameSel::Dup),
                 22 => Call::Start(NameSel::Empty),
-                23 => Call::Start(NameSel::Len65536),
-                24..=25 => Call::Start(NameSel::Len65537),
-                26..=50 => Call::Append(IdSel::Open(rng.below(4) as u8), *rng.pick(&sizes), if rng.chance(1, 6) { Src::Long } else { Src::Exact }),
+                23 => if rng.chance(1, 2) { Call::Start(NameSel::Len65536) } else { Call::Start(NameSel::Wide65536) },
+                24 => Call::Start(NameSel::Len65537),
+                25 => Call::Start(NameSel::Wide65538(rng.below(2) as u8)),
+                26..=29 => {
+                    // aim at a layer edge (block grid rarely: those appends are large), then write again
+                    let lvl = u8::from(rng.chance(1, if k.is_prod() { 12 } else { 3 }));
+                    calls.push(Call::AppendAlign(IdSel::Open(rng.below(4) as u8), lvl, rng.below(19) as i8 - 1));
+                    Call::Append(IdSel::Open(rng.below(4) as u8), *rng.pick(&sizes), Src::Exact)
+                }
+                30..=50 => Call::Append(IdSel::Open(rng.below(4) as u8), *rng.pick(&sizes), if rng.chance(1, 6) { Src::Long } else { Src::Exact }),
                 51 => Call::Append(IdSel::Open(rng.below(4) as u8), Sz::lit(9), Src::Short),
                 52..=55 => Call::Append(IdSel::Ended(rng.below(3) as u8), *rng.pick(&sizes), Src::Exact),
                 56..=57 => Call::Append(IdSel::Never, *rng.pick(&sizes), Src::Exact),
@@ -139,7 +153,7 @@ pub fn cases(ctx: &Ctx) -> Vec<Case> {
                 77..=78 => Call::End(IdSel::Never),
                 79..=86 => Call::Add(NameSel::Fresh, *rng.pick(&sizes), Src::Exact),
                 87..=89 => Call::Add(NameSel::Dup, *rng.pick(&sizes), Src::Exact),
-                90 => Call::Add(NameSel::Len65537, Sz::lit(4), Src::Exact),
+                90 => if rng.chance(1, 2) { Call::Add(NameSel::Len65537, Sz::lit(4), Src::Exact) } else { Call::Add(NameSel::Wide65538(rng.below(2) as u8), Sz::lit(4), Src::Exact) },
                 91 => Call::Add(NameSel::Fresh, Sz::lit(12), Src::Short),
                 92..=96 => Call::Flush,
                 _ => Call::Finalize,
@@ -207,6 +221,30 @@ fn name_for(sel: NameSel, files: &[MFile], counter: &mut u32) -> String {
             }
             s
         }
+        NameSel::Wide65536 => {
+            *counter += 1;
+            let mut s = format!("W{counter:05}-");
+            if s.len() % 2 != 0 {
+                s.push('-');
+            }
+            while s.len() < 65536 {
+                s.push('é');
+            }
+            s
+        }
+        NameSel::Wide65538(w) => {
+            *counter += 1;
+            let (ch, unit) = if w % 2 == 0 { ('é', 2) } else { ('\u{fffd}', 3) };
+            let mut s = String::new();
+            while s.len() + unit <= 65538 {
+                s.push(ch);
+            }
+            // the distinguishing counter goes at the end, in what is left (0 or 2 bytes)
+            while s.len() < 65538 {
+                s.push((b'0' + (*counter % 10) as u8) as char);
+            }
+            s
+        }
     }
 }
 
@@ -227,7 +265,7 @@ pub fn run_case(ctx: &mut Ctx, c: &Case) {
 fn kind_of(c: &Call) -> &'static str {
     match c {
         Call::Start(_) => "start",
-        Call::Append(..) => "append",
+        Call::Append(..) | Call::AppendAlign(..) => "append",
         Call::End(_) => "end",
         Call::Add(..) => "add",
         Call::Flush => "flush",
@@ -243,6 +281,7 @@ fn run_twin(ctx: &mut Ctx, c: &Case, k: &K) -> Result<(), (String, Value)> {
     let mut files: Vec<MFile> = Vec::new();
     let mut counter = 0u32;
     let mut finalized = false;
+    let mut pos = 0u64;
     let mut refused = 0usize;
     let mut refused_kinds: Vec<String> = Vec::new();
     let mut ended_history = false;
@@ -260,6 +299,19 @@ fn run_twin(ctx: &mut Ctx, c: &Case, k: &K) -> Result<(), (String, Value)> {
         };
         let name_ok = |n: &str, files: &[MFile]| n.len() <= 65536 && !files.iter().any(|f| f.name == n);
         // ---- expectation and execution on W1
+        // an aligned append is an append whose size comes from the current position of the block stream
+        let call = &match *call {
+            Call::AppendAlign(sel, lvl, d) => {
+                let edge = if lvl == 0 { k.chunk } else { k.block } as i64;
+                let mut n = (edge - i64::from(d) - (pos as i64 + 17)).rem_euclid(edge);
+                if n == 0 {
+                    n = edge;
+                }
+                Call::Append(sel, Sz::lit(n), Src::Exact)
+            }
+            other => other,
+        };
+        let pos_before = pos;
         let (exp, why, ok1, effect): (Expect, String, bool, Option<Box<dyn FnOnce(&mut Vec<MFile>, &mut W, &mut bool) -> Result<(), String>>>) = match *call {
             Call::Flush => {
                 let r = w1.flush().is_ok();
@@ -274,6 +326,7 @@ fn run_twin(ctx: &mut Ctx, c: &Case, k: &K) -> Result<(), (String, Value)> {
                     w2.finalize().map_err(|e| e.to_string())
                 })))
             }
+            Call::AppendAlign(..) => unreachable!("mapped to Append above"),
             Call::Start(sel) => {
                 let name = name_for(sel, &files, &mut counter);
                 let exp = if finalized || !name_ok(&name, &files) { Expect::MustErr } else { Expect::MustOk };
@@ -379,6 +432,22 @@ fn run_twin(ctx: &mut Ctx, c: &Case, k: &K) -> Result<(), (String, Value)> {
                 }
                 let eff = effect.unwrap();
                 eff(&mut files, &mut w2, &mut finalized).map_err(|e| ("twin-writer-refused-valid-call".to_string(), json!({"step": i, "call": call, "error": e})))?;
+                // position of the block stream after this call (FORMAT.md block sizes)
+                let content = |n: u64| if n > 0 { 17 + n } else { 0 };
+                pos += match *call {
+                    Call::Start(_) => 17 + files.last().map_or(0, |f| f.name.len() as u64),
+                    Call::Append(_, sz, _) => content(sz.eval(k) as u64),
+                    Call::End(_) => 41,
+                    Call::Add(_, sz, _) => 17 + files.last().map_or(0, |f| f.name.len() as u64) + content(sz.eval(k) as u64) + 41,
+                    _ => 0,
+                };
+                if pos != pos_before && c.layers != 0 {
+                    let edge = if c.layers & 2 != 0 { k.block } else { k.chunk };
+                    let to_edge = edge - pos_before % edge;
+                    if to_edge < 17 {
+                        ctx.count("musthit:block_header_straddles_layer_edge");
+                    }
+                }
                 // keep W1's id for a newly started file: it was returned above through the closure capture
             }
             Expect::DontCare => {
